@@ -8,7 +8,7 @@ usage: /venv/bin/python peg_small_scope.py <repo root> <LEN> <mode quick|full> ;
 import itertools, json, sys
 root, LEN, MODE = sys.argv[1], int(sys.argv[2]), sys.argv[3]
 sys.path.insert(0, root)
-from insights.parsr import (AnyChar, Char, InSet, Literal, EOF, Sequence, Choice, Many, Opt, FollowedBy, NotFollowedBy, KeepLeft, KeepRight)
+from insights.parsr import (AnyChar, Char, InSet, Literal, EOF, Sequence, Choice, Many, Opt, FollowedBy, NotFollowedBy, KeepLeft, KeepRight, Lift, Backtrack)
 
 AnyCharP = (lambda: AnyChar()) if isinstance(AnyChar, type) else (lambda: type(AnyChar)())      # the module may export an instance
 EOFP = EOF() if isinstance(EOF, type) else EOF
@@ -87,6 +87,40 @@ keepright = two("KeepRight", KeepRight, lambda r1, r2: None if r2 is None else (
 BIN = [seq, choice, followed, notfollowed, keepleft, keepright]
 
 
+# semantic predicates: a mapped / lifted function that rejects its argument with Backtrack is an ordinary failed alternative
+def _reject_b(v):
+    if v == "b":
+        raise Backtrack("no b here")
+    return ("ok", v)
+
+
+def _same(a, b):
+    if a != b:
+        raise Backtrack("not doubled")
+    return a + b
+
+
+def mapbt(x):
+    def ref(s, p):
+        r = x[2](s, p)
+        if r is None or r[1] == "b":
+            return None
+        return (r[0], ("ok", r[1]))
+    return ("Map(%s, reject_b)" % x[0], lambda: x[1]().map(_reject_b), ref, x[3])
+
+
+def liftbt(x, y):
+    def ref(s, p):
+        r1 = x[2](s, p)
+        if r1 is None:
+            return None
+        r2 = y[2](s, r1[0])
+        if r2 is None or r1[1] != r2[1] or not isinstance(r1[1], str):
+            return None
+        return (r2[0], r1[1] + r2[1])
+    return ("Lift(same) * %s * %s" % (x[0], y[0]), lambda: Lift(_same) * x[1]() * y[1](), ref, x[3] or y[3])
+
+
 def grow(pool_a, pool_b):
     out = []
     for x, y in itertools.product(pool_a, pool_b):
@@ -96,10 +130,11 @@ def grow(pool_a, pool_b):
 
 
 depth1 = grow(LEAVES, LEAVES) + [many(x, k) for x in LEAVES if x[3] for k in (0, 1)] + [opt(x) for x in LEAVES]
+depth1 += [mapbt(x) for x in LEAVES[:4]] + [liftbt(x, y) for x in LEAVES[:4] for y in LEAVES[:4]]
 if MODE == "full":
     d1 = depth1
 else:
-    d1 = depth1[::3]
+    d1 = depth1[::3] + depth1[-20:]
 depth2 = grow(LEAVES[:4], d1) + grow(d1, LEAVES[:4]) + [many(x, k) for x in d1 if x[3] for k in (0, 1)] + [opt(x) for x in d1]
 TERMS = LEAVES + depth1 + depth2
 INPUTS = [""] + ["".join(t) for n in range(1, LEN + 1) for t in itertools.product("ab", repeat=n)]
